@@ -36,6 +36,12 @@ func c19Pool() []c19cert {
 	s4.KeyName = "ec256c"
 	leafKey := Issue(s4, root, nil)
 	leafCross := Issue(leafSpec, root2, nil)
+	// CA look-alikes: the root re-issued (same subject and key, other serial), and the root's
+	// subject and key cross-signed by the second root
+	rootSpec := CertSpec{CN: "c19 root", KeyName: "ec256a", BC: true, IsCA: true, MaxPathLen: -1, KU: x509.KeyUsageCertSign, KUExt: ExtCritical, Serial: big.NewInt(3)}
+	rootTwin := Issue(rootSpec, nil, nil)
+	rootSpec.Serial = big.NewInt(1)
+	rootCross := Issue(rootSpec, root2, nil)
 	// (raw, subject, key, serial, issuer) identities
 	return []c19cert{
 		{0, 10, 20, 5, 30, leaf.X},
@@ -45,6 +51,8 @@ func c19Pool() []c19cert {
 		{4, 10, 20, 5, 31, leafCross.X},
 		{5, 30, 22, 1, 30, root.X},
 		{6, 31, 23, 2, 31, root2.X},
+		{7, 30, 22, 3, 30, rootTwin.X},
+		{8, 30, 22, 1, 31, rootCross.X},
 	}
 }
 
@@ -58,7 +66,7 @@ func genC19(tier string, rng *RNG, w *CaseWriter) {
 			}
 		}
 	}
-	maxLen, sample := 2, 3000
+	maxLen, sample := 2, 2000
 	if tier == "thorough" {
 		maxLen, sample = 3, 0
 	}
@@ -179,5 +187,5 @@ func genC19(tier string, rng *RNG, w *CaseWriter) {
 		run(c, t, false)
 	}
 	w.Extra["exhaustive_up_to_len"] = maxLen
-	w.Extra["pool"] = "leaf; same subject+key other serial; other validity; other key; cross-signed by second root; root; root2"
+	w.Extra["pool"] = "leaf; same subject+key other serial; other validity; other key; cross-signed by second root; root; root2; root re-issued with other serial; root subject+key cross-signed by root2"
 }
